@@ -65,3 +65,5 @@ func (r *Rand) near2() *big.Int {
 }
 
 func bigInt(v int64) *big.Int { return big.NewInt(v) }
+
+type bigIntT = big.Int
